@@ -25,6 +25,10 @@ var verifC01Ctors = []struct {
 	{"certificateVerifyMsg", func() handshakeMessage { return new(certificateVerifyMsg) }},
 	{"newSessionTicketMsg", func() handshakeMessage { return new(newSessionTicketMsg) }},
 	{"helloRequestMsg", func() handshakeMessage { return new(helloRequestMsg) }},
+	// layout flags the connection sets from the negotiated version before it calls unmarshal (readHandshake):
+	// both values of every such flag are entry points of their own
+	{"certificateRequestMsg[hasSignatureAlgorithm]", func() handshakeMessage { return &certificateRequestMsg{hasSignatureAlgorithm: true} }},
+	{"certificateVerifyMsg[hasSignatureAlgorithm]", func() handshakeMessage { return &certificateVerifyMsg{hasSignatureAlgorithm: true} }},
 	{"sessionState", func() handshakeMessage { return new(sessionState) }},
 	{"sessionStateTLS13", func() handshakeMessage { return new(sessionStateTLS13) }},
 }
